@@ -31,13 +31,17 @@ class StoreModel:
         self.files = dict(files or {})   # key -> (bytes, user-metadata dict)
         self.dirs = set(dirs or ())      # non-root directories
         self.pinned = set(pinned or ())  # directories that cannot be removed (mount points and their ancestors)
+        self.meta_only = set()           # keys that received a metadata write while they had no data: everything about
+                                         # them is unspecified except that no bytes may be served for them
         self.dirs |= self.pinned
         for k in list(self.files) + list(self.dirs):
             for a in ancestors(k):
                 self.dirs.add(a)
 
     def clone(self):
-        return StoreModel(copy.deepcopy(self.files), set(self.dirs), set(self.pinned))
+        m = StoreModel(copy.deepcopy(self.files), set(self.dirs), set(self.pinned))
+        m.meta_only = set(self.meta_only)
+        return m
 
     # ---------------- view
     def exists(self, k):
@@ -63,12 +67,26 @@ class StoreModel:
     # ---------------- preconditions (well-formedness)
     def can(self, op):
         kind, k = op[0], op[1]
+        if self.meta_only:
+            # a key holding metadata without data is unspecified territory: the only thing that may happen to it is a store;
+            # nothing is done below it or to the directories above it
+            if k in self.meta_only and kind != "store":
+                return False
+            if any(a in self.meta_only for a in ancestors(k)):
+                return False
+            if kind in ("removedir", "removedir_recursive", "remove") and any(x == k or x.startswith(k + "/") for x in self.meta_only):
+                return False
         if kind == "store":
             return k != "" and k not in self.dirs and not any(a in self.files for a in ancestors(k))
         if kind in ("store_metadata", "store_metadata_rmw", "remove", "store_rmw"):
             return k in self.files
+        if kind == "store_metadata_absent":
+            return (k != "" and k not in self.files and k not in self.dirs and not any(a in self.files for a in ancestors(k))
+                    and all(a in self.dirs for a in ancestors(k)))
         if kind == "makedir":
-            return k != "" and k not in self.files and not any(a in self.files for a in ancestors(k))
+            return k != "" and k not in self.files and k not in self.meta_only and not any(a in self.files for a in ancestors(k))
+        if kind in ("removedir", "removedir_recursive") and any(x.startswith(k + "/") for x in self.meta_only):
+            return False
         if kind == "removedir":
             return k in self.dirs and k not in self.pinned and not self.children(k)
         if kind == "removedir_recursive":
@@ -79,6 +97,11 @@ class StoreModel:
     # ---------------- effects
     def apply(self, op):
         kind, k = op[0], op[1]
+        if kind == "store_metadata_absent":
+            self.meta_only.add(k)
+            return
+        if kind in ("store", "remove"):
+            self.meta_only.discard(k)
         if kind == "store":
             for a in ancestors(k):
                 self.dirs.add(a)
@@ -94,7 +117,7 @@ class StoreModel:
             m.update(op[2])
             self.files[k] = (self.files[k][0], m)
         elif kind == "remove":
-            del self.files[k]
+            self.files.pop(k, None)
         elif kind == "makedir":
             self.dirs.add(k)
             for a in ancestors(k):
@@ -142,6 +165,8 @@ def gen_history(rnd, model, universe, n, weights=None, avoid=None, tag="v"):
             else:
                 data = ("%s%d~%s" % (tag, counter, k)).encode()
             op = ["store_rmw", k, data, {"x_rmw_store": "%sw%d" % (tag, counter)}]
+        elif kind == "store_metadata_absent":
+            op = ["store_metadata_absent", k, {"x_user": "%sa%d" % (tag, counter), "status": "evaluation"}]
         elif kind == "store_metadata":
             op = ["store_metadata", k, {"x_user": "%sm%d" % (tag, counter), "x_only": counter}]
         elif kind == "store_metadata_rmw":
@@ -179,7 +204,7 @@ def apply_real(store, op):
         m = copy.deepcopy(store.get_metadata(k))
         m.update(copy.deepcopy(op[3]))
         store.store(k, op[2], m)
-    elif kind == "store_metadata":
+    elif kind in ("store_metadata", "store_metadata_absent"):
         store.store_metadata(k, copy.deepcopy(op[2]))
     elif kind == "store_metadata_rmw":
         m = store.get_metadata(k)
@@ -223,7 +248,17 @@ def check_reads(store, model, universe, last_op=None, fresh_store_keys=(), stric
     def bad(read, key, kind, detail):
         out.append({"read": read, "key": key, "kind": kind, "detail": detail, "rel": relation(key, okey)})
 
+    unspecified = set(getattr(model, "meta_only", ()))
     for k in [""] + list(universe):
+        if k in unspecified:
+            # only one thing is demanded of a key that has metadata but never received data: no bytes are served for it
+            try:
+                got = store.get_bytes(k)
+                if got is not None:
+                    bad("get_bytes", k, "bytes_served_for_a_key_without_data", repr(got)[:60])
+            except Exception:
+                pass
+            continue
         exp_exists, exp_dir = model.exists(k), model.is_dir(k)
         # contains
         try:
@@ -310,7 +345,7 @@ def check_reads(store, model, universe, last_op=None, fresh_store_keys=(), stric
             want = model.children(k)
             try:
                 got = store.listdir(k)
-                got = sorted(got or [])
+                got = sorted(x for x in (got or []) if ((k + "/" + x) if k else x) not in unspecified)
                 if got != want:
                     miss = sorted(set(want) - set(got))
                     extra = sorted(set(got) - set(want))
@@ -329,7 +364,7 @@ def check_reads(store, model, universe, last_op=None, fresh_store_keys=(), stric
     # keys
     want = model.all_keys()
     try:
-        got = sorted(x for x in store.keys() if x not in ("", None))
+        got = sorted(x for x in store.keys() if x not in ("", None) and x not in unspecified)
         if got != want:
             miss = sorted(set(want) - set(got))
             extra = sorted(set(got) - set(want))
